@@ -25,10 +25,11 @@ func init() {
 			"(R12) decision tables of the metadata state functions over sign/ordering representatives: CheckValidity (invisible iff deleted or the absolute expiry lies before now), IsDeleted, GetRelativeExpiry (-1 without expiry, else the non-negative remainder), Update (relative expiry re-armed from now, creation time set once), SetRelativateExpiry (only non-negative TTLs). " +
 			"(R13) flushWriteCache skips the write only when the write cache is empty or its fill ratio is strictly below the threshold, and FlushCache passes threshold 0 - so the final flush always writes; " +
 			"(R14) after Interface.Delete marked the record deleted (Meta.Delete) no function that may rewrite Meta.Deleted - the expiry setters reached through Options.Apply, Reset - is called before the record is written; " +
+			"(R15) errors turned into success (A13) over the database layer: wherever an error is tested and the function can still return success the site is in a table with the exact tolerated condition (ErrNotFound for writes of new records, ErrNotFound/ErrPermissionDenied for Exists, fs.ErrNotExist / badger.ErrKeyNotFound for absent files and keys, the retried file write) - any other error class ending in success is reported; " +
 			"NOT decided: equivalence with a reference map over operation histories, operator semantics through the accessors, physical state after crashes.",
 		Rules: []ruleFn{c02R1, c02R2, c02R3, c02R4, c02R5, c02R6, c02R7, c02R8,
 			lockRuleFor("C02-R9", 9, []string{"database/storage/hashmap", "database/storage/bbolt", "database/storage/badger", "database/storage/fstree", "database/storage/sinkhole", "database/storage", "database/iterator"}, []string{}, map[string]string{}),
-			c02R10, c02R11, c02R12, c02R13, c02R14},
+			c02R10, c02R11, c02R12, c02R13, c02R14, c02R15},
 	})
 }
 
